@@ -299,6 +299,9 @@ func (a *align) ShuffleSites(rate float64, roguerate float64, randroguefirst boo
 	}
 
 	rogues := make([]string, nbRogueSeqToShuffle)
+	for r := 0; r < nbRogueSeqToShuffle; r++ {
+		rogues[r] = a.seqs[taxpermutation[r]].name
+	}
 
 	if (nbRogueSitesToShuffle + nbSitesToShuffle) > a.Length() {
 		io.ExitWithMessage(fmt.Errorf("too many sites to shuffle (%d+%d>%d)",
@@ -325,7 +328,6 @@ func (a *align) ShuffleSites(rate float64, roguerate float64, randroguefirst boo
 			seq1 := a.seqs[taxpermutation[r]]
 			seq2 := a.seqs[taxpermutation[j]]
 			seq1.sequence[site], seq2.sequence[site] = seq2.sequence[site], seq1.sequence[site]
-			rogues[r] = seq1.name
 		}
 	}
 	return rogues
